@@ -2,4 +2,4 @@
 From Coq Require Import List NArith ZArith Extraction ExtrOcamlBasic.
 From NV Require Import GenConsts BufsDefs.
 Definition all_types : nat * N * Z := (0%nat, 0%N, 0%Z).
-Extraction "bufs_model.ml" all_types c_init c_command clb_ops NB.
+Extraction "bufs_model.ml" all_types c_init c_command c_line clb_ops NB.
